@@ -25,6 +25,7 @@ def trace_obligations(ctx):
     tab = gen.Table(PROP)
     S.plan = qgates.assume_in_range_plan
     raised = []
+    dagger_classes = []
     try:
         for name, info in sorted(infos.items()):
             k = info.np
@@ -48,6 +49,15 @@ def trace_obligations(ctx):
                 d = g.dagger()
                 tab.ob_product(f"C05_dagger_{name}", k, info.nq, [qgates.sgate_of(d)],
                                [qgates.sgate_of(fresh(info, base_q, P0), dagger=True)], gate=name)
+                # the class matrix (right side of the dagger obligation) is unitary, and hence
+                # (QV/Proofs/Bridge.lean) the traced dagger() undoes the gate in the simulator
+                # model: the hypothesis `hdag` of T05_invert_run for this class
+                tab.ob(f"C05_unitary_{name}", f"unitaryCheck {k} ((o_C05_dagger_{name}.rs.headD default).mat)",
+                       sem=f"QV.unitaryCheck_sound {k} ((o_C05_dagger_{name}.rs.headD default).mat) C05_unitary_{name}", gate=name)
+                tab.corollary(f"C05_dagger_{name}_undo", f"QV.Ob.DaggerUndoes o_C05_dagger_{name}",
+                              f"QV.Ob.daggerUndoes_of_check o_C05_dagger_{name} (by decide +kernel) C05_dagger_{name} C05_unitary_{name}",
+                              needs=[f"C05_dagger_{name}", f"C05_unitary_{name}"])
+                dagger_classes.append(name)
             attempt("dagger", a)
 
             has_class_controls = bool(fresh(info, base_q, P0).control_qubits)
@@ -120,7 +130,20 @@ def trace_obligations(ctx):
                 attempt("cur_decompose", d4)
     finally:
         S.plan = None
+    # end to end (generated, because the class list is read from the source): every circuit
+    # built from instances of the classes whose dagger obligation holds, followed by its
+    # invert(), is the identity — QV.Props.C05.T05_invert_identity_of_classes
+    tab.class_table("C05_classes", "QV.Ob.DaggerUndoes",
+                    [(f"C05_dagger_{nm}", f"C05_dagger_{nm}_undo") for nm in dagger_classes])
+    tab.corollary(
+        "C05_invert_identity",
+        "∀ (is : List QV.Props.C05.Inst),\n"
+        "    (∀ i ∈ is, i.o ∈ C05_classes ∧ (∀ q, i.σ (i.τ q) = q) ∧ (∀ q, i.τ (i.σ q) = q)) →\n"
+        "    ∀ ψ : Lab → ℂ, runCircuit (is.map QV.Props.C05.Inst.gate ++ QV.Props.C05.invertInst is) ψ = ψ",
+        "QV.Props.C05.T05_invert_identity_of_classes C05_classes C05_classes_ok",
+        needs=["C05_classes_ok"], imports=["QV.Props.C05b"])
     status, passed = tab.emit()
+    ctx.stats["classes_in_generated_invert_identity"] = len([c for c in tab.cor_names if c.startswith("C05_dagger_") and c.endswith("_undo")])
     for name, expr, meta in tab.obs:
         ok, sup = status.get(name, (False, False))
         if not ok and (meta.get("gate") in OUTSIDE or not sup):
@@ -177,6 +200,17 @@ def gate_search(ctx, raised):
             n = info.nq
             U = qgates.gate_full_matrix(g, n)
             ctx.case(("gate", name, tuple(round(x, 3) for x in v0)))
+            # the updated values must be accepted by the constructor too (the reference gate is
+            # built from them): e.g. MS restricts theta to [0, pi/2]
+            for _ in range(8):
+                try:
+                    info.make(base_q, v1)
+                    break
+                except Exception:
+                    v1 = _vals(ctx, k)
+            else:
+                v1 = None
+                ctx.stat(f"no_admissible_update_values_{name}")
 
             def chk(label, build, expected, nn, code):
                 try:
@@ -204,7 +238,18 @@ def gate_search(ctx, raised):
             args0 = f"*{base_q}, *{v0}"
             chk("dagger", lambda: info.make(base_q, v0).dagger(), U.conj().T, n,
                 f"g = gates.{name}({args0}); d = g.dagger()\nassert np.allclose(full(d, {n}), full(g, {n}).conj().T, atol=1e-9)")
-            if k:
+            # the gate followed by its dagger() is the identity (the per-class fact behind
+            # T05_invert_run: obligations C05_dagger_<G> and C05_unitary_<G>)
+            try:
+                D = qgates.gate_full_matrix(info.make(base_q, v0).dagger(), n)
+                if not np.allclose(D @ U, np.eye(2**n), atol=1e-9):
+                    ctx.fail(f"undo:{name}", f"gates.{name} with parameters {v0} followed by its dagger() is not the identity",
+                             pre + helper + f"g = gates.{name}({args0})\nassert np.allclose(full(g.dagger(), {n}) @ full(g, {n}), np.eye(2**{n}), atol=1e-9)\n",
+                             expected="identity", observed=str(np.round(D @ U, 6).tolist()),
+                             broken=[f"C05_unitary_{name}", f"C05_dagger_{name}"])
+            except Exception:
+                pass  # a raising dagger() is reported by the check above
+            if k and v1 is not None:
                 def upd():
                     gg = info.make(base_q, v0)
                     gg.parameters = v1[0] if k == 1 else tuple(v1)
